@@ -14,5 +14,5 @@ CONF = {
                     'gopacket.LayerString/LayerDump/LayerGoString total on non-nil layers (reflective); Geneve/GeneveOption have no String method',
                     'layer values without nil *GeneveOption entries in Options', 'EthernetType.LayerType table abstract'],
     'trusted_base': ['model: coq/Model/LgeneveModel.v is a hand transcription of layers/geneve.go:59-203 as repaired by the three fix: commits of agent-fixer'],
-    'explanation': 'Theorems over all byte strings about the Gallina model of the Geneve decoder (no panic, fuel bound, fresh = reused); the serializer model is tied by correspondence and the C06/C07 oracles only (theorems not proved: see Props/Lgeneve.v).',
+    'explanation': 'Theorems over all byte strings / layer values about the Gallina model of the Geneve codec: decoder (no panic, fuel bound, fresh = reused) and serializer (no panic, junk freedom, round trip under gn_wf); correspondence ties it to layers/geneve.go.',
 }
